@@ -724,12 +724,19 @@ fn main() {
             if k >= scenarios.len() {
                 break;
             }
-            let mut res = run_scenario(&scenarios[k], &cfg);
+            let guarded = |sc: &Value| -> Value {
+                match std::panic::catch_unwind(std::panic::AssertUnwindSafe(|| run_scenario(sc, &cfg))) {
+                    Ok(v) => v,
+                    Err(p) => json!({"kind": "result", "idx": sc["idx"], "status": "tool-error",
+                                     "detail": format!("replayer panicked: {}", vh::util::panic_message(p))}),
+                }
+            };
+            let mut res = guarded(&scenarios[k]);
             // a schedule the harness could not realise in time is retried (never a verdict)
             let mut tries = 0;
             while res["status"] == "unrealised" && tries < 2 {
                 tries += 1;
-                res = run_scenario(&scenarios[k], &cfg);
+                res = guarded(&scenarios[k]);
             }
             *counts.lock().unwrap().entry(res["status"].as_str().unwrap_or("?").to_string()).or_insert(0) += 1;
             vh::util::emit(&res);
